@@ -56,11 +56,13 @@ def run(ctx):
         'find_new_prefixes, find_matching, adjust_for_prefix_joining (the mass of "parent + last character" is moved to the existing child '
         'and removed from the parent row, exactly those cells and no others); (3) the beam loop of CTCPrefixLogRawNumpyDecoder.__call__ '
         '(configuration without a language model): inductive invariant "the beam holds pairwise distinct prefixes of real characters, each with '
-        'non-zero probability, and last_chars[p] is the last symbol of prefix p", hence pairwise distinct transcripts; ValueError iff the '
+        'non-zero probability, last_chars[p] is the last symbol of prefix p, and Pb[p] <= CTCB(t, prefix p), Pnb[p] <= CTCNB(t, prefix p)" '
+        'where CTCB / CTCNB are the textbook CTC prefix-probability recurrences (ending in blank / non-blank) — hence pairwise distinct transcripts and '
+        'vis score <= CTC log-probability of the transcript for EVERY matrix, beam width and pre-selection; ValueError iff the '
         'normalisation deviation exceeds the tolerance.  ASSUMED contracts (listed under trusted_base, validated by the bounded tier): '
         'multisort.top_k (k largest cells, pairwise different), the configurable pre-selection (strictly increasing positions), blank has '
         'non-zero probability in every frame.  BOUNDED stand-in for the numeric clauses: the run-time contract of the decoder — '
-        'vis_sc <= CTC log-probability, exact bag when nothing is pruned, equality with a reference frame-synchronous k-best prefix beam '
+        'vis_sc <= CTC log-probability (also proved, see above), exact bag when nothing is pruned, equality with a reference frame-synchronous k-best prefix beam '
         'search (cases whose k-th place is tied are compared on the weaker clauses only), rejection of unnormalised input — is evaluated '
         'on the real decoder for every matrix of a finite grid.  Spec functions: CTC alpha recursion validated against explicit '
         'enumeration of all alignments.')
